@@ -492,6 +492,8 @@ def recipe_hash(recipe: dict) -> str:
 
 def recipe_traits(recipe: dict) -> dict:
     """Coarse traits used for violation shapes and reporting."""
+    if recipe["kind"] == "corpus":
+        return {"path": "corpus", "coloured": None, "grouped": None, "ncols": [], "file": recipe["file"]}
     cols = _uses_colour(recipe)
     return {
         "path": recipe["kind"],
@@ -675,6 +677,20 @@ def build(recipe: dict, pool: Pool | None, share: dict | None, figdir: str):
 
     pool = pool or Pool()
     share = share or {}
+    if recipe["kind"] == "corpus":
+        from . import corpus
+
+        key = "corpus:" + recipe["file"]
+        if share.get("corpus") and key in pool.objs:
+            kwargs = pool.objs[key]  # the same component / frame objects in another document
+            pool.shared_hits += 1
+            pool.hit_kinds["corpus"] = pool.hit_kinds.get("corpus", 0) + 1
+        else:
+            kwargs = corpus.load_kwargs(recipe)
+            if share.get("corpus"):
+                pool.objs[key] = kwargs
+        frames = [f for f in corpus.frames_of(kwargs) if hasattr(f, "to_dict") and hasattr(f, "schema")]
+        return rtflite.RTFDocument(**kwargs), frames
     kw: dict = {}
     for comp, arg in _COMP_ARG.items():
         spec = recipe.get(comp)
